@@ -215,7 +215,7 @@ pub fn run(tier: Tier, _replay: Option<String>) -> i32 {
         "C06",
         tier,
         "exploration",
-        "configuration sweep through Settings::new_chain/Chain::expanded_draw: num_tune in 0..=60 u {100,150,400[,1000,2000]} x six presets x step-size method {DualAverage, Adam, Fixed} (NUTS) x jitter {None, 0.1} x window options x seeds; per draw: tuning flag, transformation index/update events vs start of the final window, step_size vs step_size_bar. distinct = (preset, num_tune, method, jitter) classes",
+        "configuration sweep through Settings::new_chain/Chain::expanded_draw: num_tune in 0..=60 u {100,150,400[,1000,2000]} x six presets x step-size method {DualAverage, Adam, Fixed} (NUTS) x jitter {None, 0.1} x window options x seeds; + a forced divergence at the warmup boundary and (short warmups) in every single draw; per draw: tuning flag, transformation index/update events vs start of the final window, step_size vs step_size_bar. distinct = (preset, num_tune, method, jitter) classes",
     );
     report.assume("ChaCha8 seeds are configuration values (2 fixed seeds), not an explored dimension");
     report.assume("3-d Gaussian target; the flow presets use the harness' affine flow");
@@ -281,6 +281,36 @@ pub fn run(tier: Tier, _replay: Option<String>) -> i32 {
                 }
                 let method = if preset == Preset::FlowMclmc { Some(StepSizeAdaptMethod::Fixed(0.5)) } else { None };
                 cfgs.push(Cfg { preset, num_tune, num_draws: 5, method, jitter: None, step_size_window: 0.15, early_window: 0.3, switch_freq: 80, seed: 1, fault_draw: Some(fd as u64), max_step_size: None, mclmc_step: None });
+            }
+        }
+    }
+    // a divergence in *every single* draw of short warmups (not only at the boundary), under the
+    // window options that move the phase boundaries, for every adaptive step-size method: the
+    // acceptance/divergence history is part of the quantifier, and a divergent draw is where the
+    // schedule (switches, final window, last-draw hand-over) takes its other branches
+    {
+        let tunes: Vec<u64> = tier.pick(vec![3, 8], vec![1, 2, 3, 4, 6, 8, 10, 13, 21]);
+        let windows: Vec<(f64, f64, u64)> = tier.pick(
+            vec![(0.5, 0.1, 5), (0.6, 0.5, 2)],
+            vec![(0.15, 0.3, 80), (0.5, 0.1, 5), (0.6, 0.5, 2), (1.0, 0.3, 3), (0.0, 0.0, 1)],
+        );
+        for preset in Preset::ALL {
+            let methods: Vec<Option<StepSizeAdaptMethod>> = if preset == Preset::FlowMclmc {
+                vec![Some(StepSizeAdaptMethod::Fixed(0.5))]
+            } else if preset.is_nuts() {
+                vec![Some(StepSizeAdaptMethod::DualAverage), Some(StepSizeAdaptMethod::Adam)]
+            } else {
+                vec![None]
+            };
+            for &num_tune in &tunes {
+                for &method in &methods {
+                    for &(ssw, ew, sf) in &windows {
+                        for fd in 0..num_tune + 3 {
+                            // the three boundary positions under the default windows are above
+                            cfgs.push(Cfg { preset, num_tune, num_draws: 5, method, jitter: Some(0.1), step_size_window: ssw, early_window: ew, switch_freq: sf, seed: 1, fault_draw: Some(fd), max_step_size: None, mclmc_step: None });
+                        }
+                    }
+                }
             }
         }
     }
